@@ -21,9 +21,9 @@ func init() {
 		Assumptions: []string{"genomes are well-formed non-modular family members", "a false result of add-node / add-link is not constrained by C05"},
 		Cases: func(tier string) int {
 			if tier == "quick" {
-				return 160
+				return 3200
 			}
-			return 1600
+			return 16000
 		},
 		Run: runC05,
 		Required: []string{"add_node.true", "add_link.true", "connect_sensors.true", "toggle_enable.disabled", "re_enable.enabled",
